@@ -267,6 +267,9 @@ pub struct StreamOpts {
     /// frame is not the last one
     pub not_last: bool,
     pub save_as_reference: u32,
+    /// blending of the frame onto reference slot `blend_source` (mode as in headers::BLEND_*; 0 = Replace)
+    pub blend_mode: u32,
+    pub blend_source: u32,
     /// patch dictionary (output of `patches::write_patches`) and the kPatches frame flag
     pub patches: Option<BitWriter>,
     /// spline dictionary (output of `patches::write_splines`) and the kSplines frame flag
@@ -280,6 +283,35 @@ pub struct StreamOpts {
     /// write a Modular LF frame (lf_level 1, 1/8 size) first and let the VarDCT frame take its LF from it
     /// (flag kUseLfFrame; the LF coefficients are then not coded in the VarDCT frame)
     pub lf_frame: bool,
+    /// tile the frame with varblocks of this transform type (DctSelect value, e.g. 21 = DCT128x128) wherever one fits
+    /// entirely; the rest stays DCT8. The large blocks carry synthetic sparse coefficients (no JPEG meaning) and use
+    /// the library-default quantisation matrices.
+    pub big_blocks: Option<u8>,
+}
+
+/// Size in 8x8 blocks (width, height) of a transform type (DctSelect value).
+pub fn dct_select_size(t: u8) -> (usize, usize) {
+    match t {
+        0..=3 | 12..=17 => (1, 1),
+        4 => (2, 2),
+        5 => (4, 4),
+        6 => (1, 2),
+        7 => (2, 1),
+        8 => (1, 4),
+        9 => (4, 1),
+        10 => (2, 4),
+        11 => (4, 2),
+        18 => (8, 8),
+        19 => (4, 8),
+        20 => (8, 4),
+        21 => (16, 16),
+        22 => (8, 16),
+        23 => (16, 8),
+        24 => (32, 32),
+        25 => (16, 32),
+        26 => (32, 16),
+        _ => panic!("not a transform type"),
+    }
 }
 
 impl JpegSpec {
@@ -974,6 +1006,10 @@ impl JpegSpec {
         fh.is_last = !o.not_last;
         fh.duration = o.duration;
         fh.save_as_reference = o.save_as_reference;
+        fh.blending_info = BlendingInfo { mode: o.blend_mode, alpha_channel: 0, clamp: false, source: o.blend_source };
+        if o.alpha_bits > 0 {
+            fh.ec_blending_info = vec![fh.blending_info.clone()];
+        }
         if o.patches.is_some() {
             fh.flags |= FLAG_PATCHES;
         }
@@ -1027,9 +1063,45 @@ impl JpegSpec {
         let mut lf_syms = vec![];
         tokenize_channels(&mut lf, 0..3, 1, &tree, &wp, &mut lf_syms);
         let (cw, chh) = ((self.w + 63) / 64, (self.h + 63) / 64);
+        // varblock layout: `vb_of[block]` = transform type at the top-left block of a varblock, None where covered
+        let mut vb_of: Vec<Option<u8>> = vec![Some(0); nb];
+        if let Some(t) = o.big_blocks {
+            assert!(self.samp.is_empty(), "large varblocks: no chroma subsampling");
+            let (tw, th) = dct_select_size(t);
+            let mut occupied = vec![false; nb];
+            for y in 0..bh {
+                for x in 0..bw {
+                    if occupied[y * bw + x] {
+                        vb_of[y * bw + x] = None;
+                        continue;
+                    }
+                    if x % tw == 0 && y % th == 0 && x + tw <= bw && y + th <= bh {
+                        vb_of[y * bw + x] = Some(t);
+                        for dy in 0..th {
+                            for dx in 0..tw {
+                                occupied[(y + dy) * bw + x + dx] = true;
+                            }
+                        }
+                    }
+                }
+            }
+        }
+        let vb_types: Vec<u8> = vb_of.iter().flatten().copied().collect();
+        let nb = vb_types.len();
         let mut meta: Vec<Channel> = vec![Channel::new(cw, chh), Channel::new(cw, chh), Channel::new(nb, 2), Channel::new(bw, bh)];
+        for (i, t) in vb_types.iter().enumerate() {
+            meta[2].data[i] = *t as i32;
+        }
         if let Some(v) = o.hostile_dct_select {
             meta[2].data[0] = v;
+        }
+        if filters {
+            // EPF sharpness varies from block to block (it only steers the filter strength, not the coefficients)
+            for y in 0..bh {
+                for x in 0..bw {
+                    meta[3].data[y * bw + x] = ((x * 3 + y * 5 + 1) % 8) as i32;
+                }
+            }
         }
         let mut meta_syms = vec![];
         tokenize_channels(&mut meta, 0..4, 1 + 2, &tree, &wp, &mut meta_syms);
@@ -1112,7 +1184,7 @@ impl JpegSpec {
             mcode.write_symbols(&mut s, &lf_syms);
         }
         // HfMetadata
-        let nbits = if nb <= 1 { 0 } else { 32 - ((nb - 1) as u32).leading_zeros() };
+        let nbits = if bw * bh <= 1 { 0 } else { 32 - ((bw * bh - 1) as u32).leading_zeros() };
         s.write(nbits, (nb - 1) as u64);
         mhdr.write(&mut s);
         mcode.write_symbols(&mut s, &meta_syms);
@@ -1155,6 +1227,37 @@ impl JpegSpec {
                 }
                 group_sym_ranges.push((hf_syms.len(), hf_syms.len()));
                 cur_group = g;
+            }
+            let Some(vt) = vb_of[blk] else { continue };
+            if vt != 0 {
+                // a large varblock: synthetic sparse coefficients after the LLF corner, in coefficient order
+                let (tw, th) = dct_select_size(vt);
+                let n = tw * th;
+                for ch in 0..3usize {
+                    let len = 64 * n - n;
+                    let mut seq = vec![0i32; len];
+                    let mut j = (blk * 7 + ch * 3) % 11;
+                    while j < len.min(5 * n + 40) {
+                        seq[j] = [1, -1, 2, -3, 1, 4, -2][(j + blk + ch) % 7];
+                        j += 5 + (j * 13 + blk + ch) % 23;
+                    }
+                    if ch != 0 && blk % 3 == 1 {
+                        seq.iter_mut().for_each(|v| *v = 0);
+                    }
+                    let nz = seq.iter().filter(|&&v| v != 0).count();
+                    hf_syms.push(Sym::Val { ctx: 0, value: nz as u32 });
+                    let mut left = nz;
+                    for &v in seq.iter() {
+                        if left == 0 {
+                            break;
+                        }
+                        hf_syms.push(Sym::Val { ctx: 0, value: pack_signed(v) });
+                        if v != 0 {
+                            left -= 1;
+                        }
+                    }
+                }
+                continue;
             }
             for ch in 0..3usize {
                 // channel order Y, X, B
